@@ -77,7 +77,7 @@ def obligations(tier):
     for sk in sks:
         for c in cfgs:
             obs.append({'name': 'C04.a/%s/%s' % (sk, skel.cfg_name(c)), 'module': __name__, 'func': 'alloc',
-                        'params': {'sk': sk, 'cfg': c, 'minlen': 1 if sk == 'sk3' else 0},
+                        'params': dict({'sk': sk, 'cfg': c, 'minlen': 1 if sk == 'sk3' else 0}, **({'maxlen': 16383 * 2048} if sk == 'sk3' else {})),
                         'cond_timeout': 300, 'path_timeout': 60,
                         'bounds': 'skeleton %s (%s); config %s; three file lengths symbolic in [%d, 0x3ffff800]' % (
                             sk, SKELETONS[sk].__doc__.split('\n')[0], skel.cfg_name(c), 1 if sk == 'sk3' else 0),
@@ -88,7 +88,7 @@ def obligations(tier):
             if sk == 'sk4' and not c['rr']:
                 continue
             obs.append({'name': 'C04.b/%s/%s' % (sk, skel.cfg_name(c)), 'module': __name__, 'func': 'master',
-                        'params': {'sk': sk, 'cfg': c, 'minlen': 1 if sk == 'sk3' else 0},
+                        'params': dict({'sk': sk, 'cfg': c, 'minlen': 1 if sk == 'sk3' else 0}, **({'maxlen': 16383 * 2048} if sk == 'sk3' else {})),
                         'cond_timeout': 900, 'path_timeout': 200,
                         'bounds': 'skeleton %s; config %s; three file lengths symbolic in [0, 0x3ffff800]; one copy-loop iteration per file (blocksize 2^40)' % (
                             sk, skel.cfg_name(c)),
